@@ -23,6 +23,10 @@ Specification (written from the mathematical definitions, NOT from the operators
   is_vertex(p, vs)    exists k < len(vs): vs[k] == p          (pointwise; `p in vs` of the code is this existential)
   on_some_edge(p, vs) exists k < len(vs): on_seg(p, vs[k], vs[succ(k)])
   on_boundary(p, vs)  is_vertex or on_some_edge
+on_seg is a defined symbol (pip_on_seg := the exact form above); its definition is unfolded only in the
+verification of tween2, every other function meets it through tween2's contract (no non-linear arithmetic there).
+The native twins (.native) are independent references: rational parameter t for on_seg, rational intersection
+abscissa of edge and ray for crossing / W; both writings are compared on seeded samples at import.
 
 Post-conditions (from the property statement): tween2 == on_seg; wind == 0 on the boundary else W(len) and hence
 wind == 0 exactly for boundary points and points of zero crossing number; inside(side) == side on the boundary
@@ -92,24 +96,59 @@ def _succ(k, n):
     return z3.If(k + 1 == n, z3.IntVal(0), k + 1)
 
 
+def _mentions_bound(t):
+    """does the term mention a quantifier-bound variable of the clause translator (named x!b<n>)?"""
+    seen, stack = set(), [t]
+    while stack:
+        x = stack.pop()
+        if x.get_id() in seen:
+            continue
+        seen.add(x.get_id())
+        if z3.is_quantifier(x):
+            stack.append(x.body())
+        elif z3.is_app(x):
+            if x.num_args() == 0 and x.decl().kind() == z3.Z3_OP_UNINTERPRETED and "!b" in x.decl().name():
+                return True
+            stack.extend(x.children())
+    return False
+
+
+def _define(E, fact):
+    """add one instance of a DEFINITION (pip_W / pip_on_seg) to the path: what Engine.assume does, with its
+    guard (facts about quantifier-bound variables are not path facts) decided by a DAG walk instead of printing"""
+    key = fact.get_id()
+    if key in E.assumed or (E.spec and _mentions_bound(fact)):
+        return
+    E.assumed.add(key)
+    E.pc.append(fact)
+
+
+# on_seg as a DEFINED symbol: pip_on_seg(p, u, v) := f_on_seg(p, u, v).  The definition is unfolded (instance by
+# instance) only where the code computes the predicate itself (tween2); wind / inside / sideOnly and the wrappers
+# reach it through tween2's contract and use the symbol without unfolding it (a generalisation: what is proved with
+# the symbol left uninterpreted holds for its definition).
+_ONSEG = z3.Function("pip_on_seg", *([z3.IntSort()] * 6 + [z3.BoolSort()]))
+UNFOLD_ON_SEG = ("tween2",)
+
+
 def _edge_on(px, py, xs, ys, n, k):
     s = _succ(k, n)
-    return f_on_seg(px, py, z3.Select(xs, k), z3.Select(ys, k), z3.Select(xs, s), z3.Select(ys, s))
+    return _ONSEG(px, py, z3.Select(xs, k), z3.Select(ys, k), z3.Select(xs, s), z3.Select(ys, s))
 
 
 @specfunc
 def on_seg(E, p, u, v):
-    return Sym(f_on_seg(*(_xy(p) + _xy(u) + _xy(v))), "bool")
+    args = _xy(p) + _xy(u) + _xy(v)
+    t = _ONSEG(*args)
+    act = E.reg.active
+    if act is not None and act.qual in UNFOLD_ON_SEG:
+        _define(E, t == f_on_seg(*args))
+    return Sym(t, "bool")
 
 
 @specfunc
 def crossing(E, p, a, b):
     return Sym(f_crossing(*(_xy(p) + _xy(a) + _xy(b))), "int")
-
-
-@specfunc
-def succ(E, vs, k):
-    return Sym(_succ(zint(k), E.llen(vs)), "int")
 
 
 @specfunc
@@ -130,13 +169,8 @@ def W(E, p, vs, k):
     s = _succ(km, n)
     step = f_crossing(px, py, z3.Select(xs, km), z3.Select(ys, km), z3.Select(xs, s), z3.Select(ys, s))
     w = lambda j: _W(px, py, xs, ys, n, j)
-    if not E.feasible(kk != 0):
-        E.assume(w(kk) == 0)
-    elif not E.feasible(kk <= 0):
-        E.assume(w(kk) == w(km) + step)
-    else:
-        E.assume(z3.Implies(kk == 0, w(kk) == 0))
-        E.assume(z3.Implies(kk > 0, w(kk) == w(km) + step))
+    _define(E, z3.Implies(kk == 0, w(kk) == 0))
+    _define(E, z3.Implies(kk > 0, w(kk) == w(km) + step))
     return Sym(w(kk), "int")
 
 
@@ -207,7 +241,6 @@ def _n_on_some_edge(p, vs):
 
 on_seg.native = _n_on_seg
 crossing.native = _n_crossing
-succ.native = _n_succ
 on_edge.native = _n_on_edge
 W.native = _n_W
 is_vertex.native = _n_is_vertex
@@ -223,6 +256,22 @@ assert _n_W((2, 2), [(0, 0), (4, 0), (4, 4), (2, 1), (0, 4)], 5) == 0        # i
 assert _n_W((1, 2), [(0, 0), (4, 0), (4, 4), (2, 1), (0, 4)], 5) == 1
 assert _n_on_seg((2, 0), (0, 0), (4, 0)) and _n_on_seg((4, 0), (0, 0), (4, 0)) and not _n_on_seg((5, 0), (0, 0), (4, 0))
 assert _n_on_seg((1, 1), (0, 0), (3, 3)) and not _n_on_seg((1, 2), (0, 0), (3, 3)) and not _n_on_seg((1, 1), (0, 0), (0, 0))
+
+
+def _anchor_formulas(samples=150):
+    """the z3 forms (cross-product signs) and the independent native references (rational parameters / ray
+    intersection) are two writings of the same definitions: compared here on seeded integer samples at import;
+    their equivalence over the reals is what the lemmas below prove"""
+    import random
+    rng = random.Random(44)
+    for _ in range(samples):
+        c = [rng.randint(-3, 3) for _ in range(6)]
+        zc = [z3.IntVal(x) for x in c]
+        assert z3.is_true(z3.simplify(f_on_seg(*zc))) == _n_on_seg(c[0:2], c[2:4], c[4:6]), ("on_seg", c)
+        assert z3.simplify(f_crossing(*zc)).as_long() == _n_crossing(c[0:2], c[2:4], c[4:6]), ("crossing", c)
+
+
+_anchor_formulas()
 
 
 # ------------------------------------------------------------------ lemmas over the reals (both directions)
